@@ -806,6 +806,23 @@ def gen_jobs(ctx):
     for _ in range(16 if quick else 300):
         add({"created_by": "fastparquet-python version 2024.2.0 (build 0)", "optional": True if rng.random() < 0.7 else None,
              "width": rng.choice([None, 8, 16])}, stream="created-by-fastparquet")
+    # 6e. the same files read AS CATEGORICALS (categories=[column]; the v2 fast path copies bytes over the codes array): dictionaries with
+    #     unused entries so that the item size of the codes array (1 / 2 bytes) differs from the index width, full last groups, NULLs
+    for w in (8, 16):
+        for v2 in (False, True):
+            for extra in (0, 200):
+                for opt in (False, True):
+                    for _ in range(1 if quick else 5):
+                        lf, table = G.gen_lfile(rng, {"coltype": rng.choice([G.COLTYPES[21], G.COLTYPES[10]]), "encs": ["dict"], "width": w, "ncols": 1,
+                                                      "nrgs": 1, "rows": rng.choice([4, 8, 9, 40]), "second_dict": False, "v2": v2, "split": "one",
+                                                      "optional": opt, "created_by": "fastparquet-python version 0.7.1 (build 0)"})
+                        if extra:
+                            for it in lf["rgs"][0][0]["items"]:
+                                if "dict" in it:
+                                    have = set(json.dumps(v, sort_keys=True) for v in it["vals"])
+                                    more = [({"b": ("x%03d" % i).encode().hex()} if lf["leaves"][0]["tag"] == "utf8" else 10 ** 12 + i) for i in range(extra)]
+                                    it["vals"] = it["vals"] + [v for v in more if json.dumps(v, sort_keys=True) not in have]
+                        jobs.append((lf, table, {"expect": "decode", "stream": "created-by-fastparquet-categories", "categories": True}))
     # 7. encodings the reader does not implement must be refused
     for enc in (6, 7, 9):
         for v2 in (False, True):
